@@ -1,0 +1,130 @@
+//go:build verif
+
+// Contracts for contract-based deductive verification (govc, /verif).
+// This file contains comments only; it adds no code to the package.
+
+package hive2
+
+//@ # ---- assumed: addresses are immutable values identified by their bytes ---------------------
+//@ opaque github.com/gauss-project/aurorafs/pkg/boson.Address as Addr
+//@ spec func addrBytes(a boson.Address) Bytes
+//@ spec func addrOf(b Bytes) boson.Address
+//@ axiom addr-of-bytes: forall a boson.Address :: addrOf(addrBytes(a)) == a
+//@ extern func (github.com/gauss-project/aurorafs/pkg/boson.Address).Bytes
+//@   ensures seq(result) == addrBytes(a)
+//@   assigns nothing
+//@ extern func github.com/gauss-project/aurorafs/pkg/boson.NewAddress
+//@   ensures result == addrOf(seq(b))
+//@   assigns nothing
+//@ extern func (github.com/gauss-project/aurorafs/pkg/boson.Address).MemberOf
+//@   ensures result <==> (exists i :: 0 <= i && i < len(addrs) && addrs[i] == a)
+//@   assigns nothing
+//@ # proximity order of two byte strings (proved against the XOR metric in pkg/boson, C20)
+//@ spec func prox(a Bytes, b Bytes) int
+//@ extern func github.com/gauss-project/aurorafs/pkg/boson.Proximity
+//@   ensures int(ret) == prox(seq(one), seq(other))
+//@   assigns nothing
+
+//@ # ---- assumed: multiaddresses and the address book --------------------------------------------
+//@ spec func maBytes(m int) Bytes
+//@ spec func privU(b Bytes) bool
+//@ spec func pubU(b Bytes) bool
+//@ extern func github.com/multiformats/go-multiaddr/net.IsPrivateAddr
+//@   ensures result == privU(maBytes(ref(a)))
+//@   assigns nothing
+//@ extern func github.com/multiformats/go-multiaddr/net.IsPublicAddr
+//@   ensures result == pubU(maBytes(ref(a)))
+//@   assigns nothing
+//@ extern func (github.com/multiformats/go-multiaddr.Multiaddr).Bytes
+//@   ensures seq(result) == maBytes(ref(self))
+//@   assigns nothing
+//@ # the address book answers with the record of the overlay it was asked for
+//@ extern func (github.com/gauss-project/aurorafs/pkg/addressbook.GetPutter).Get
+//@   ensures addr != nil ==> addr.Overlay == overlay && addr.Underlay != nil
+//@   assigns nothing
+
+//@ # ---- assumed: iteration and shuffling call their callback any number of times ---------------
+//@ extern func (*github.com/gauss-project/aurorafs/pkg/topology/kademlia.Kad).EachPeer
+//@   iterates f
+//@   assigns nothing
+//@ extern func (*github.com/gauss-project/aurorafs/pkg/topology/kademlia.Kad).EachKnownPeer
+//@   iterates f
+//@   assigns nothing
+//@ extern func math/rand.Shuffle
+//@   iterates swap with 0 <= $i && $i < n && 0 <= $j && $j < n
+//@   assigns nothing
+//@ extern func math/rand.Seed
+//@   assigns nothing
+//@ extern func (github.com/gauss-project/aurorafs/pkg/p2p/protobuf.Reader).ReadMsgWithContext
+//@   assigns target(msg)
+//@ extern func (github.com/gauss-project/aurorafs/pkg/p2p/protobuf.Writer).WriteMsgWithContext
+//@   assigns nothing
+
+//@ # ---- the request, as a logical constant: who asks ---------------------------------------------
+//@ ghost requester boson.Address
+
+//@ # order po is among the requested orders
+//@ # u8(v) is the conversion uint8(v); kept behind a function symbol so that the arithmetic
+//@ # is instantiated only where a conversion is really looked at
+//@ spec func u8(v int) int
+//@ axiom u8-is-the-low-byte: forall v int :: u8(v) == v % 256
+//@ spec func inPos(bin int, pos []int32) bool = (exists i :: 0 <= i && i < len(pos) && u8(pos[i]) == bin)
+
+//@ func inArray
+//@   property C29
+//@   ensures result <==> inPos(int(bin), pos)
+//@   assigns nothing
+//@   loop 1 invariant 0 - 1 <= rangeindex && (rangeindex < len(pos) || len(pos) == 0 && rangeindex == 0 - 1)
+//@   loop 1 invariant forall k :: 0 <= k && k <= rangeindex ==> u8(pos[k]) != int(bin)
+
+
+//@ # the visitor passed to both peer iterations
+//@ func (*Service).onFindNode$2
+//@   property C29
+//@   requires s != nil && s.addressBook != nil && resp != nil
+//@   assigns region(skip), resp.Peers, region(resp.Peers)
+//@   iterinv requester-stays-skipped needs -: len(skip) >= 1 && skip[0] == requester
+//@   iterinv skip-only-grows needs -: len(skip) >= len(pre(skip)) && forall i :: 0 <= i && i < len(pre(skip)) ==> skip[i] == pre(skip[i])
+//@   iterinv entries-exist needs -: forall k :: 0 <= k && k < len(resp.Peers) ==> resp.Peers[k] != nil
+//@   iterinv never-the-requester needs requester-stays-skipped, entries-exist: forall k :: 0 <= k && k < len(resp.Peers) ==> addrOf(seq(resp.Peers[k].Overlay)) != requester
+//@   iterinv only-requested-orders needs entries-exist: forall k :: 0 <= k && k < len(resp.Peers) ==> inPos(prox(addrBytes(target), seq(resp.Peers[k].Overlay)), req.Pos)
+//@   iterinv no-private-underlay-for-public-requester needs entries-exist: forall k :: 0 <= k && k < len(resp.Peers) ==> (s.config.AllowPrivateCIDRs || !isPeerPublic || !privU(seq(resp.Peers[k].Underlay)))
+//@   iterinv entries-were-not-skipped needs skip-only-grows, entries-exist: forall k, i :: 0 <= k && k < len(resp.Peers) && 0 <= i && i < len(pre(skip)) ==> addrOf(seq(resp.Peers[k].Overlay)) != pre(skip[i])
+//@   ensures never-stops-or-fails: result0 == false && result1 == false && result2 == nil
+
+//@ # random choice of at most limit entries: every chosen entry is one of the given entries
+//@ func randPeersLimit$1
+//@   property C29
+//@   requires 0 <= i && i < len(peers) && 0 <= j && j < len(peers)
+//@   assigns elems(peers)
+//@   iterinv same-length: len(peers) == len(pre(peers))
+//@   iterinv entries-come-from-the-input: forall k :: 0 <= k && k < len(peers) ==> (exists m :: 0 <= m && m < len(pre(peers)) && peers[k] == pre(peers[m]))
+
+//@ func randPeersLimit
+//@   property C29
+//@   requires limit >= 0
+//@   ensures at-most-limit: len(result) == min(len(peers), limit)
+//@   ensures chosen-from-the-input: forall k :: 0 <= k && k < len(result) ==> (exists m :: 0 <= m && m < len(peers) && result[k] == old(peers[m]))
+//@   assigns region(peers)
+
+//@ func (*Service).onFindNode
+//@   property C29
+//@   requires s != nil && s.addressBook != nil && s.config.Kad != nil && s.logger != nil && s.metrics.OnFindNode != nil && s.metrics.OnFindNodePeers != nil && stream != nil
+//@   requires requester == peer.Address
+//@   # everything the reply depends on, fixed before the first pass over the connected peers
+//@   cut Kad.EachPeer: start-state: resp != nil && len(resp.Peers) == 0 && len(skip) == 1 && skip[0] == requester && target == addrOf(seq(req.Target))
+//@   cut Kad.EachPeer: limits-split-the-request: limitConn >= 0 && limitKnown >= 0 && limitConn + limitKnown <= min(max(int(req.Limit), 0), 30)
+//@   # between the passes: the chosen connected peers are in the skip list
+//@   cut Kad.EachKnownPeer: second-pass-state: resp != nil && len(resp.Peers) == 0 && len(skip) >= 1 && skip[0] == requester && target == addrOf(seq(req.Target)) && len(connResult) <= limitConn
+//@   cut Kad.EachKnownPeer: limits-kept: limitConn >= 0 && limitKnown >= 0 && limitConn + limitKnown <= min(max(int(req.Limit), 0), 30)
+//@   cut Kad.EachKnownPeer: chosen-connected-peers-skipped: len(skip) >= len(connResult) + 1 && forall k :: 0 <= k && k < len(connResult) ==> skip[len(skip) - len(connResult) + k] == addrOf(seq(connResult[k].Overlay))
+//@   cut Kad.EachKnownPeer: connected-part-ok: forall k :: 0 <= k && k < len(connResult) ==> connResult[k] != nil && addrOf(seq(connResult[k].Overlay)) != requester && inPos(prox(seq(req.Target), seq(connResult[k].Overlay)), req.Pos) && (s.config.AllowPrivateCIDRs || !isPeerPublic || !privU(seq(connResult[k].Underlay)))
+//@   callassert Writer.WriteMsgWithContext no-more-than-requested: len(resp.Peers) <= min(max(int(req.Limit), 0), 30)
+//@   callassert Writer.WriteMsgWithContext never-the-requester: forall k :: 0 <= k && k < len(resp.Peers) ==> resp.Peers[k] != nil && addrOf(seq(resp.Peers[k].Overlay)) != requester
+//@   callassert Writer.WriteMsgWithContext only-requested-orders: forall k :: 0 <= k && k < len(resp.Peers) ==> inPos(prox(seq(req.Target), seq(resp.Peers[k].Overlay)), req.Pos)
+//@   callassert Writer.WriteMsgWithContext no-private-underlay-for-public-requester: forall k :: 0 <= k && k < len(resp.Peers) ==> (s.config.AllowPrivateCIDRs || !isPeerPublic || !privU(seq(resp.Peers[k].Underlay)))
+//@   callassert Writer.WriteMsgWithContext known-part-repeats-no-connected-peer: forall a, b :: 0 <= a && a < len(connResult) && 0 <= b && b < len(knownResult) ==> addrOf(seq(connResult[a].Overlay)) != addrOf(seq(knownResult[b].Overlay))
+//@   callassert Writer.WriteMsgWithContext reply-is-the-two-parts: dyn($msg) == resp
+//@   loop 1 invariant 0 - 1 <= rangeindex && rangeindex < len(connResult)
+//@   loop 1 invariant len(skip) == pre(len(skip)) + rangeindex + 1 && len(skip) >= 1 && skip[0] == requester
+//@   loop 1 invariant forall k :: 0 <= k && k <= rangeindex ==> skip[pre(len(skip)) + k] == addrOf(seq(connResult[k].Overlay))
